@@ -171,10 +171,11 @@ theorem hp_forLoop (c : ICtx) (x : Nat) (b : Expr) : ∀ (is : Seq) (D : Env) (a
     simp only [forLoop]; exact HP.bnd (hev _ _ _) (fun r => hp_forLoop c x b is _ _)
 
 omit hs in
-theorem hp_mapLoop (c : ICtx) (b : Expr) : ∀ (is : Seq) (D : Env) (acc : Seq), HP (mapLoop ev c b D acc is)
-  | [], D, acc => HP.ret _
-  | i :: is, D, acc => by
-    simp only [mapLoop]; exact HP.bnd (hev _ _ _) (fun r => hp_mapLoop c b is _ _)
+theorem hp_mapLoop (c : ICtx) (b : Expr) (size : Nat) : ∀ (is : Seq) (k : Nat) (D : Env) (acc : Seq),
+    HP (mapLoop ev c b size k D acc is)
+  | [], k, D, acc => HP.ret _
+  | i :: is, k, D, acc => by
+    simp only [mapLoop]; exact HP.bnd (hev _ _ _) (fun r => hp_mapLoop c b size is _ _ _)
 
 theorem hp_hofForEach (c : ICtx) (a : Nat) : ∀ (xs : Seq) (D : Env) (acc : Seq), HP (hofForEach cfg ev c a D acc xs)
   | [], D, acc => HP.ret _
@@ -248,6 +249,14 @@ theorem hp_step (e : Expr) (c : ICtx) (D : Env) : HP (step cfg ev e c D) := by
     simp only [step]
     apply HP.bnd (HP.flag _ rfl); intro _
     split <;> hp_basic
+  | posE =>
+    simp only [step]
+    apply HP.bnd (HP.flag _ rfl); intro _
+    split <;> hp_basic
+  | lastE =>
+    simp only [step]
+    apply HP.bnd (HP.flag _ rfl); intro _
+    split <;> hp_basic
   | add a b => exact hp_evArith ev hev _ a b c D
   | sub a b => exact hp_evArith ev hev _ a b c D
   | mul a b => exact hp_evArith ev hev _ a b c D
@@ -293,7 +302,7 @@ theorem hp_step (e : Expr) (c : ICtx) (D : Env) : HP (step cfg ev e c D) := by
   | par e => exact hev _ _ _
   | smap a b =>
     simp only [step]
-    exact HP.bnd (hev _ _ _) (fun _ => hp_mapLoop ev hev _ _ _ _ _)
+    exact HP.bnd (hev _ _ _) (fun _ => hp_mapLoop ev hev _ _ _ _ _ _ _)
   | forEach s f =>
     simp only [step]
     exact HP.bnd (hp_funArgNote ev hev _ _ _ _) (fun _ => HP.bnd (hev _ _ _)
